@@ -1073,7 +1073,10 @@ impl SubRule {
                     } else {
                         res_word.syllables.last_mut().unwrap().segments.push_back(*seg);
                         if let Some(m) = mods {
-                            let lc = res_word.apply_seg_mods(&self.alphas, m, pos, state.position)?;
+                            // `pos` lies past the end of the word here: the modifiers go to the segment just appended
+                            let last_syll = res_word.syllables.len() - 1;
+                            let appended = SegPos::new(last_syll, res_word.syllables[last_syll].segments.len() - 1);
+                            let lc = res_word.apply_seg_mods(&self.alphas, m, appended, state.position)?;
                             if lc > 0 {
                                 pos.seg_index += lc.unsigned_abs() as usize;
                             }
